@@ -180,6 +180,12 @@ impl Check for Display {
                 Ok(MV::Str(t)) if t == want_nested => {}
                 other => fail!("format-builtin:nested-differs", "format(\"{{}} {{}}\", [x, {{k: x, l: [x]}}], x) = {:?}, expected {:?} (x = {:e})", other, want_nested, x),
             }
+            // templates with literal braces / escaped braces use the same display form
+            let want_braces = format!("{{{}}} {{x}} = {}", s, s);
+            match sess.obs("format(\"{{{}}} {{x}} = {}\", x, x)") {
+                Ok(MV::Str(t)) if t == want_braces => {}
+                other => fail!("format-builtin:brace-template-differs", "format(\"{{{{{{}}}}}} {{{{x}}}} = {{}}\", x, x) = {:?}, expected {:?} (x = {:e})", other, want_braces, x),
+            }
             ctx.label("via-format-builtin");
         }
         Ok(())
